@@ -419,8 +419,8 @@ int main(int argc, char **argv)
     const List &V3 = T ? V : V20;
     vp::bound("options", "linelength {10,20,40,80,120} x precision {0,2,9} x compress {0,1}, lossless=true, sep=' ' (30 sets); whole messages behind /a and /a/b0 with " + std::string(T ? "4" : "2") + " rotating option sets per list");
     vp::bound("value_alphabet_V", (long long)V.size());
-    vp::bound("lists_plain", "all lists of length 0..2 over V; all of length 3 over " + std::string(T ? "V" : "a 22-value sub-alphabet") + "; lists of length 4..12 per type and mixed (cyclic, no accidental runs)");
-    vp::bound("runs", "prefix in sub-alphabet+none x run{i h c f d: delta 0,1,-1,3; T F: constant, alternating; s S constant" + std::string(T ? "; r N constant; starts 0, -2, type maximum-7" : "") + "} x length 3..8 x suffix in sub-alphabet+none" + (T ? "; prefix/suffix additionally over all of V with the other side empty" : ""));
+    vp::bound("lists_plain", "all lists of length 0..2 over V; all of length 3 over " + std::string(T ? "V; all of length 4 over a 22-value sub-alphabet" : "a 22-value sub-alphabet") + "; lists of length 4..12 per type and mixed (cyclic, no accidental runs)");
+    vp::bound("runs", "prefix in sub-alphabet+none x run{i h c f d: delta 0,1,-1,3; T F: constant, alternating; s S constant" + std::string(T ? "; r N constant; starts 0, -2, type maximum-7" : "") + "} x length 3..8 x suffix in sub-alphabet+none" + (T ? "; prefix x suffix additionally over all of V x V" : "") + "; two runs in a row; 5..8 values stepping by one across INT_MAX/INT_MIN (32 and 64 bit)");
     vp::bound("arrays", "every homogeneous array of length 0..4 over 3 values per element type (14 element types), alone and between scalars; arrays holding a run of length 3..8 with an optional extra element");
     vp::bound("strings", "every string of length 0..3 over {a \" \\ \\n ' ' % 1} + identifiers + reserved words + one 130-char string, as s and S, alone and between neighbours");
     vp::bound("chars", T ? "every printable ASCII char and C escape, alone and every ordered pair" : "6 chars in V; every printable ASCII char and C escape alone");
@@ -434,7 +434,8 @@ int main(int argc, char **argv)
     do_list("l", idx++, List{});
     for(auto &a : V) do_list("l", idx++, List{a});
     for(auto &a : V) for(auto &b : V) do_list("l", idx++, List{a, b});
-    for(auto &a : V3) for(auto &b : V3) for(auto &c : V3) do_list("l", idx++, List{a, b, c}, T ? FEW : ALL);
+    for(auto &a : V3) for(auto &b : V3) for(auto &c : V3) do_list("l", idx++, List{a, b, c});
+    if(T) for(auto &a : V20) for(auto &b : V20) for(auto &c : V20) for(auto &d : V20) do_list("l", idx++, List{a, b, c, d}, FEW);
     if(!g_stop) g_fam_done += "l ";
     // ---- family "long": 4..12 values per type and mixed
     idx = 0;
@@ -467,14 +468,21 @@ int main(int argc, char **argv)
                 List L; if(pre) L.push_back(*pre); L.insert(L.end(), run.begin(), run.end()); if(suf) L.push_back(*suf);
                 do_list("run", idx++, L, (pre && suf) ? FEW : ALL);
             }
-            if(T) for(auto &p : V) { List L{p}; L.insert(L.end(), run.begin(), run.end()); do_list("run", idx++, L, FEW);
-                                     List M = run; M.push_back(p); do_list("run", idx++, M, FEW); }
+            if(T) for(auto &p : V) for(auto &q : V) { List L{p}; L.insert(L.end(), run.begin(), run.end()); L.push_back(q); do_list("run", idx++, L, FEW); }
             // two runs in a row (the second of another kind of delta)
             for(auto &rd2 : defs) if(rd2.rs.k == rd.rs.k && (T || len == 5)) {
-                List L = run; for(int i = 0; i < 5; ++i) L.push_back(run_elem(rd2.rs, rd2.rs.k == 'c' ? (rd2.rs.delta < 0 ? 'Z' : 'A') : rd2.base + 40, i));
+                List L = run; for(int i = 0; i < 5; ++i) L.push_back(run_elem(rd2.rs, rd2.rs.k == 'c' ? (rd2.rs.delta < 0 ? 'Z' : 'A') : rd2.base > 1000 ? rd2.base - 40 : rd2.base < -1000 ? rd2.base + 40 : rd2.base + 40, i));
                 do_list("run", idx++, L, FEW);
             }
         }
+    }
+    // lists whose values step by one across the end of the type's range (not an arithmetic run in the integers)
+    {
+        List wi, wh, wi2, wh2;
+        for(int k = 0; k < 8; ++k) { wi.push_back(pf::I((int32_t)((uint32_t)INT_MAX - 5 + k))); wh.push_back(pf::H((int64_t)((uint64_t)INT64_MAX - 5 + k)));
+                                     wi2.push_back(pf::I((int32_t)((uint32_t)INT_MIN + 5 - k))); wh2.push_back(pf::H((int64_t)((uint64_t)INT64_MIN + 5 - k))); }
+        for(const List *w : {&wi, &wh, &wi2, &wh2}) for(size_t from = 0; from < 4; ++from) for(size_t len = 5; from + len <= 8; ++len)
+            do_list("run", idx++, List(w->begin() + from, w->begin() + from + len), FEW);
     }
     if(!g_stop) g_fam_done += "run ";
     // ---- family "arr": homogeneous arrays
